@@ -440,6 +440,20 @@ func (c *Ctx) c30DBCalls(info *types.Info, fd *ast.FuncDecl) []c30call {
 			continue
 		}
 		dc := c30call{fd: fd, call: call, method: o.Name(), query: call.Args[q], binds: call.Args[q+1:]}
+		// db.Exec(query, bind...) with `bind := []any{a, b, c}` defined once: the bound values are the literal's elements
+		if call.Ellipsis.IsValid() && len(dc.binds) == 1 {
+			if cl, ok := localDefs(info, fd.Body).resolve1(info, dc.binds[0]).(*ast.CompositeLit); ok {
+				keyed := false
+				for _, el := range cl.Elts {
+					if _, isKV := el.(*ast.KeyValueExpr); isKV {
+						keyed = true
+					}
+				}
+				if _, isSlice := info.TypeOf(cl).Underlying().(*types.Slice); isSlice && !keyed {
+					dc.binds = cl.Elts
+				}
+			}
+		}
 		qe := unparen(dc.query)
 		// query := fmt.Sprintf(…); db.Query(query, …)
 		for i := 0; i < 3; i++ {
